@@ -233,13 +233,15 @@ def correspondence(ctx):
             c.count("model:not-modelled-or-diverged")
         lured = [m for m in hits.get("new_modules", []) if m in hw.CANARY_MODULES or m.split(".")[0] in hw.LURE_MODULES]
         if cfg == "default" and (hits["imported"] or hits["imports"] or hits["pickle"] or hits["denied_attr"]
-                                 or hits["denied_call"] or hits["keys"] or lured or hits["state_writes"]):
+                                 or hits["denied_call"] or hits["keys"] or lured
+                                 or hw.illegitimate_writes(hits["state_writes"])):
             # the canaries are independent of the recorder: under the default configuration none may ever be hit
             c.disagreements.append(dict(
                 case=dict(kind="history", seed=ctx.seed, index=i, config=cfg, sent=desc), first_difference=-1,
                 impl=("canaries hit: imported=%r import-calls=%r pickle=%r denied-attr=%r denied-call=%r keys=%r modules=%r "
                       "state-writes=%r" % (hits["imported"][:2], hits["imports"][:2], hits["pickle"][:2], hits["denied_attr"][:2],
-                                           hits["denied_call"][:2], hits["keys"][:2], lured[:3], hits["state_writes"][:2]))[:400],
+                                           hits["denied_call"][:2], hits["keys"][:2], lured[:3],
+                                           hw.illegitimate_writes(hits["state_writes"])[:2]))[:400],
                 model="the model has no such touch under the default configuration (no_import / no_pickle / touch_policy)"))
         elif g != want:
             we, ge = want.split(" | ")[0].split(" ; "), g.split(" | ")[0].split(" ; ")
@@ -423,7 +425,8 @@ def oracle_session(seed, index, n_bursts=None):
                                         foreign = idp
                             refuse = _must_refuse(m)
                     before = (len(hw.HITS.keys_calls), len(hw.HITS.special))
-                    before_state = (len(hw.HITS.state_writes), s.svc.state, len(hw.HITS.denied_attr), len(hw.HITS.denied_call))
+                    before_state = (len(hw.illegitimate_writes(hw.HITS.state_writes)), s.svc.state, len(hw.HITS.denied_attr),
+                                    len(hw.HITS.denied_call))
                     signal.alarm(WATCHDOG_S)
                     try:
                         got = s.burst(group)
@@ -448,10 +451,11 @@ def oracle_session(seed, index, n_bursts=None):
                             for idp in _harvest_all(f):
                                 if idp not in boxed:
                                     boxed.append(idp)
-                    after_state = (len(hw.HITS.state_writes), s.svc.state, len(hw.HITS.denied_attr), len(hw.HITS.denied_call))
+                    after_state = (len(hw.illegitimate_writes(hw.HITS.state_writes)), s.svc.state, len(hw.HITS.denied_attr),
+                                   len(hw.HITS.denied_call))
                     if after_state != before_state and len(problems) < 4:
                         problems.append("after %s: state writes %r, service state %r, denied attributes %r, denied calls %r" % (
-                            repr(m)[:220], hw.HITS.state_writes[before_state[0]:][:3], s.svc.state,
+                            repr(m)[:220], hw.illegitimate_writes(hw.HITS.state_writes)[before_state[0]:][:3], s.svc.state,
                             hw.HITS.denied_attr[before_state[2]:][:3], hw.HITS.denied_call[before_state[3]:][:3]))
                     if refuse and (len(hw.HITS.keys_calls), len(hw.HITS.special)) != before:
                         problems.append("%s made the protocol run %r on a held object: %s" % (
@@ -471,8 +475,9 @@ def oracle_session(seed, index, n_bursts=None):
                 problems.append("policy-denied callable ran: %r" % (hw.HITS.denied_call[:3],))
             if hw.HITS.keys_calls:
                 problems.append("keys() of a held object ran (a name the policy denies): %r" % (hw.HITS.keys_calls[:3],))
-            if hw.HITS.state_writes or s.svc.state != 0:
-                problems.append("service state changed by a denied attempt: %r state=%r" % (hw.HITS.state_writes[:3], s.svc.state))
+            if hw.illegitimate_writes(hw.HITS.state_writes) or s.svc.state != 0:
+                problems.append("service state changed by an attempt the service never allowed: %r state=%r" % (
+                    hw.illegitimate_writes(hw.HITS.state_writes)[:3], s.svc.state))
             if rt.PICKLE_LOG:
                 problems.append("pickle was used: %r" % (rt.PICKLE_LOG[:3],))
             if rt.IMPORT_LOG or hw.IMPORTED:
